@@ -59,7 +59,7 @@ RULE = (
     "tab / line feed / carriage return (character reference), blanks and line breaks in front / behind, every blank "
     "written as blank / literal tab / line break / CRLF - per role, in entities with 1-3 roles (a near-miss role next to "
     "a SAML 2.0 role of the same or another kind; nothing but a near-miss role), through inline / file / remote / MDQ "
-    "sources; Coq splits the value (Tokens.rp) and the reference reads its ITEMS (Tokens.canon_hist).  "
+    "sources; Coq splits the value (Tokens.rp: the pieces; Tokens.canon_hist: the items, str.split() as of 9be4974e) and the reference reads its ITEMS; values are ASCII (str.split() also splits at non-ASCII spaces, which an xs:list does not: outside the model).  "
     "After EVERY step the whole query set (27 lookups per entity of the universe + keys() + "
     "with_descriptor() for 6 kinds) is put in the case's ORDER — as listed (__getitem__ first), 'service first' "
     "(keys / with_descriptor, then per entity service lookups ... and __getitem__ last) or a seeded permutation, a third "
@@ -1467,7 +1467,7 @@ NEAR_MISSES = [
     SAML2P + "," + SAML11P, SAML11P + ";" + SAML2P]
 OTHER_PROTOS = [SAML11P, SAML10P, SHIB10P, "urn:x:proto"]
 # separators INSIDE the value: one blank, several blanks, and the white space that only a character reference
-# can put there (tab, line feed, carriage return: the items are still separate items, finding C11-F9)
+# can put there (tab, line feed, carriage return: the items are still separate items, finding C11-F9, fixed by 9be4974e)
 VALUE_SEPS = [" "] * 9 + ["  "] * 3 + ["   ", "\t", "\n", "\r", " \n ", "\r\n"]
 # how a blank of the value is WRITTEN in the document (the parser turns each into one blank)
 BLANK_SPELLINGS = [[" "], ["\t"], ["\n"], ["\r\n"], ["\r"], ["\n", "\t", " "]]
